@@ -50,6 +50,22 @@ CHECKS["C17"] = ("exploration", "DESIGN.md §7 C17",
     "judged only by the safety invariant 'configuration reported => checksum matches the stored one'.",
     "Trusts the independent masker/checksum (anchored to the real Guardrails sample); configurations are zero-padded; default chunk size.")
 
+CHECKS["C07"] = ("exploration", "DESIGN.md §4, §7 C07",
+    "deterministic simulation with fault injection: real HttpBeaconClient threads (baton-passed) + reference team server + faulty simulated network + virtual clock + seeded PRNGs; wire tap decoded by C2Http under 4 key variants",
+    "Seeded search over beacon configurations, client populations, operator task lists, handler behaviours and fault lists "
+    "(message loss, duplication, delay, corruption, HTTP errors, crash/restart, clock jumps, noise). Every message on the "
+    "simulated wire is decoded by the passive decoder under RSA-only / aes_rand / AES+HMAC / AES-no-verify key material and "
+    "compared with ground truth recorded at the source; routing and rejection of unrelated requests are checked; bounded "
+    "liveness after the last fault.",
+    "Trusts the independent reference server/codec (anchored to captured Cobalt Strike traffic), PyCryptodome, httpx request building; pcap.py itself is not executed (no tshark), its per-packet driver logic is mirrored.")
+CHECKS["C19"] = ("exploration", "DESIGN.md §4, §7 C19",
+    "deterministic simulation with fault injection: long-lived real client sessions with crash/restart, sleep seam observation, reference handler registry, bounded liveness",
+    "Same simulator as C07 biased to long sessions: identity (even id in range, stable across check-ins and restarts, same "
+    "keys for the same id), jitter band observed at the time.sleep seam, metadata fits the RSA key, exactly-once dispatch "
+    "per received task against a reference registry over all registration mechanisms, queues drain within a bound after "
+    "the last fault.",
+    "Trusts the reference registry model (a dict) and the reference server; handlers are workload code.")
+
 NOT_APPLICABLE = {
     "C02": "Pure function config-block bytes -> settings/views; no schedule, clock, fault, reader state or history for a simulator to control.",
     "C03": "Pure decoders of binary sub-encodings (bytes -> steps/strings); nothing to inject or interleave.",
